@@ -156,6 +156,57 @@ def percentile_list(ctx, shape, axis, qs):
     return ctx.done(ctx.AND(*oks), ctx.observe(res))
 
 
+def width(ctx, dt, func, skipna, axis=1):
+    """decided by its real-stack replay (dtype widths are not modelled): reductions of narrow-float data (float32 / float16) with
+    NaN handle missing values like float64 data do.  The cells are exactly representable and so are all results."""
+    np, da = ctx.np, ctx.da
+    nan = float('nan')
+    rows = [[1.5, nan, 3.25], [2.0, 0.0, 4.0]]
+    vals = np.array(rows, dtype=getattr(np, dt))
+    a = da.DimArray(vals, axes=[('x', np.array([10, 20])), ('y', np.array([1, 2, 3]))])
+    kw = {'axis': ('y' if axis == 1 else 'x')}
+    if skipna:
+        kw['skipna'] = True
+    r = ctx.call(lambda: getattr(a, func)(**kw))
+    if r[0] != 'ok':
+        return ctx.done(False, r[1])
+    fibres = rows if axis == 1 else [[rows[0][j], rows[1][j]] for j in range(3)]
+
+    def k(f):
+        has_nan = any(c != c for c in f)
+        v = [c for c in f if c == c] if skipna else f
+        if func in ('all', 'any'):
+            return {'all': all, 'any': any}[func](bool(c) for c in v)
+        if has_nan and not skipna:
+            return nan
+        if func == 'sum':
+            return sum(v)
+        if func == 'prod':
+            p = 1.0
+            for c in v:
+                p *= c
+            return p
+        if func == 'mean':
+            return sum(v) / len(v)
+        if func == 'min':
+            return min(v)
+        if func == 'max':
+            return max(v)
+        if func == 'ptp':
+            return max(v) - min(v)
+        if func == 'median':
+            s = sorted(v)
+            return s[len(s) // 2] if len(s) % 2 else (s[len(s) // 2 - 1] + s[len(s) // 2]) / 2
+        raise ValueError(func)
+    exp = [k(f) for f in fibres]
+    res = r[1]
+    if not isinstance(res, da.DimArray) or tuple(res.dims) != (('x',) if axis == 1 else ('y',)):
+        return ctx.done(False, ctx.observe(res))
+    got = res.values.tolist()
+    ok = len(got) == len(exp) and all((g != g) if (e != e) else (g == e) for g, e in zip(got, exp))
+    return ctx.done(ok, ctx.observe(res))
+
+
 def templates():
     ts = []
 
@@ -197,4 +248,8 @@ def templates():
             add('percentile-%s-%s-%s' % (q, 'x'.join(map(str, shape)), axis), 'reduce_', cost=0.5, shape=shape, func='percentile', axis=axis, q=q)
     add('percentile-list', 'percentile_list', cost=1, shape=[3, 2], axis=0, qs=[25, 50])
     add('percentile-list-1', 'percentile_list', cost=1, shape=[2, 3], axis=1, qs=[10.0, 50.0, 90.0])
+    for dt in ('float32', 'float16'):
+        for func in ('sum', 'prod', 'mean', 'min', 'max', 'ptp', 'all', 'any', 'median'):
+            for skipna in (False, True):
+                add('width-%s-%s-%s' % (dt, func, 'skipna' if skipna else 'keepna'), 'width', cost=0.1, dt=dt, func=func, skipna=skipna, axis=1 if func != 'min' else 0)
     return ts
